@@ -191,6 +191,12 @@ theorem inv2_step (cfg : Cfg) {st : St} (e : Ev) (hi : Inv st) (h : Inv2 st) : I
       · exact h
       · apply inv2_same h <;> (unfold doApplyGetFail ignoreMsg ackTo; (repeat' split) <;> rfl)
     · exact h
+  case applyNoRows =>
+    split
+    · split
+      · exact h
+      · apply inv2_same h <;> (unfold doApplyNoRows; (repeat' split) <;> rfl)
+    · exact h
   case appendBad =>
     split
     · split
